@@ -25,6 +25,7 @@ def check(model, R, tier):
     kernels = [model.func(d) for d in sorted({d for o in ops for d, _, _ in o.bwd_calls})]
     K.check_scatter(model, R, kernels, 'C01', floor=3)
     K.check_reduce(model, R, 'C01', ['synapgrad.cpu_ops.%s_backward' % n for n in ('sum', 'mean', 'max', 'min')])
+    K.check_mean_divisor(model, R, 'C01')
     from sa import rules_axis as A
     A.check_axis(model, R, 'C01', scope='backward')
     return dict(
